@@ -63,13 +63,19 @@ variable [LT α] [DecidableLT α]
 /-- `torch.sign` -/
 def sign (x : α) : α := if 0 < x then 1 else if x < 0 then -1 else 0
 
-/-- The Householder matrix of `compute_orthonormal_basis`, for the already metric-scaled vector
-    `a = G_metric * dgamma_t0` and the stripped column `j`:
+/-- `alpha = -torch.sign(a[j]) * torch.norm(a)` of `compute_orthonormal_basis`, for the already
+    metric-scaled vector `a = G_metric * dgamma_t0` and the stripped column `j`. -/
+def hhAlpha (sqrt : α → α) (n : Nat) (a : Nat → α) (j : Nat) : α :=
+  -(sign (a j)) * sqrt (dot n a a)
 
-      alpha = -sign(a[j]) * norm(a);  u = a - alpha * e_j;  v = u / norm(u);  Q = I - 2 * v vᵀ      -/
+/-- `u_vector = a - alpha * e_j` -/
+def hhU (sqrt : α → α) (n : Nat) (a : Nat → α) (j : Nat) : Nat → α :=
+  fun i => a i - hhAlpha sqrt n a j * (if i = j then 1 else 0)
+
+/-- The Householder matrix of `compute_orthonormal_basis`:
+    `v = u / norm(u)`;  `Q = eye(n) - 2 * v.view(-1, 1) * v`. -/
 def householderQ (sqrt : α → α) (n : Nat) (a : Nat → α) (j : Nat) : Nat → Nat → α :=
-  let al := -(sign (a j)) * sqrt (dot n a a)
-  let u : Nat → α := fun i => a i - al * (if i = j then 1 else 0)
+  let u := hhU sqrt n a j
   let nu := sqrt (dot n u u)
   let v : Nat → α := fun i => u i / nu
   fun i k => (if i = k then 1 else 0) - (1 + 1) * v i * v k
